@@ -15,6 +15,8 @@ import (
 	"sync"
 	"time"
 
+	v1 "github.com/fatedier/frp/pkg/config/v1"
+	"github.com/fatedier/frp/pkg/msg"
 	"github.com/fatedier/frp/pkg/util/tcpmux"
 	"github.com/fatedier/frp/pkg/util/vhost"
 	"github.com/fatedier/frp/server/group"
@@ -270,8 +272,86 @@ func groupCase(addr string, muxed bool, plan []int) (string, []int, error) {
 	return fmt.Sprintf("CHand true %s %s %s", hx.List(reqs), hx.List(sched), hx.List(fs)), fates, nil
 }
 
+// ---- full system: in-process frps, a load-balancing group proxy, the worker held at the gate
+// group.tcp.before_handoff / group.tcpmux.before_handoff (between Accept and the hand-off send) ----
+// window: the proxy (last member) is closed while the worker is held.  Returns "" if the gate is not in this tree.
+func sysGroupCase(idx int, muxed, window bool) (string, []int, error) {
+	addr := "127.0.11.210"
+	muxPort := 0
+	s, err := hx.StartServer(addr, func(c *v1.ServerConfig) {
+		c.UserConnTimeout = 1
+		if muxed {
+			muxPort = hx.FreePort(addr)
+			c.TCPMuxHTTPConnectPort = muxPort
+		}
+	})
+	if err != nil {
+		return "", nil, err
+	}
+	defer s.Close()
+	p, _, err := s.Login(hx.LoginOpts{})
+	if err != nil || p == nil {
+		return "", nil, fmt.Errorf("login failed: %v", err)
+	}
+	defer p.Close()
+	grp := fmt.Sprintf("g%d", idx)
+	port := hx.FreePort(addr)
+	np := &msg.NewProxy{ProxyName: "gp", ProxyType: "tcp", RemotePort: port, Group: grp, GroupKey: "k"}
+	point := "group.tcp.before_handoff"
+	dial := net.JoinHostPort(addr, fmt.Sprint(port))
+	if muxed {
+		np = &msg.NewProxy{ProxyName: "gp", ProxyType: "tcpmux", Multiplexer: "httpconnect", CustomDomains: []string{"h.test"}, Group: grp, GroupKey: "k"}
+		point = "group.tcpmux.before_handoff"
+		dial = net.JoinHostPort(addr, fmt.Sprint(muxPort))
+	}
+	if r, err := p.NewProxy(np); err != nil || r.Error != "" {
+		return "", nil, fmt.Errorf("new proxy: %v %v", err, r)
+	}
+	reached, release := hooks.arm(point, grp)
+	u, err := net.Dial("tcp", dial)
+	if err != nil {
+		return "", nil, err
+	}
+	defer u.Close()
+	if muxed {
+		_, _ = u.Write([]byte("CONNECT h.test:80 HTTP/1.1\r\nHost: h.test:80\r\n\r\n"))
+	}
+	select {
+	case <-reached:
+	case <-time.After(time.Second):
+		hooks.disarm(point, grp)
+		return "", nil, nil
+	}
+	sched := []string{"0"}
+	if window {
+		_ = p.CloseProxy("gp")
+		if muxed {
+			time.Sleep(200 * time.Millisecond)
+		} else {
+			waitFor(time.Second, func() bool { return !hx.TCPBound(addr, port) })
+			time.Sleep(50 * time.Millisecond)
+		}
+		sched = append(sched, "1", "1", "1")
+	}
+	close(release)
+	sched = append(sched, "0")
+	fate := 3
+	if !window {
+		// handed to the member listener: its handler asks our session for a work connection
+		_, err := p.RecvUntil(700*time.Millisecond, func(m msg.Message) bool { _, ok := m.(*msg.ReqWorkConn); return ok })
+		if err == nil {
+			fate = 1
+		}
+	}
+	if fate != 1 && hx.ConnClosedWithin(u, 600*time.Millisecond) {
+		fate = 2
+	}
+	return fmt.Sprintf("CHand true [HDispatch; HCloser] %s [(0, %d)]", hx.List(sched), fate), []int{fate}, nil
+}
+
 func runHandoff(cfg *hx.RunCfg) error {
 	hx.Quiet()
+	hooks.install()
 	g := hx.NewGen(cfg.Seed)
 	var cases []string
 	var fails []map[string]any
@@ -309,6 +389,35 @@ func runHandoff(cfg *hx.RunCfg) error {
 		}
 		if err != nil {
 			fails = append(fails, map[string]any{"key": "handoff-setup", "what": err.Error(), "case": fmt.Sprint(name, plan)})
+			continue
+		}
+		cases = append(cases, text)
+		dist[name]++
+		for _, f := range fates {
+			dist[fmt.Sprintf("fate%d", f)]++
+			if f == 3 {
+				lost[name]++
+			}
+		}
+	}
+	// full-system replays through the real gates
+	sysN := 4
+	if cfg.Tier != "quick" {
+		sysN = 16
+	}
+	for i := 0; i < sysN; i++ {
+		muxed, window := i%2 == 1, i%4 < 2
+		name := "system:group.TCPGroup.worker"
+		if muxed {
+			name = "system:group.TCPMuxGroup.worker"
+		}
+		text, fates, err := sysGroupCase(i, muxed, window)
+		if err != nil {
+			fails = append(fails, map[string]any{"key": "handoff-setup", "what": err.Error(), "case": name})
+			continue
+		}
+		if text == "" {
+			dist["system-gate-absent"]++
 			continue
 		}
 		cases = append(cases, text)
